@@ -97,6 +97,15 @@ func checkIDLength(id, kind string) error {
 	return nil
 }
 
+// checkValidRoomID refuses room IDs that spec.NewRoomID refuses, so that RoomID() cannot
+// panic on an event that parsing accepted.
+func checkValidRoomID(roomID string) error {
+	if _, err := spec.NewRoomID(roomID); err != nil {
+		return fmt.Errorf("gomatrixserverlib: invalid room ID %q: %w", roomID, err)
+	}
+	return nil
+}
+
 // SplitID splits a matrix ID into a local part and a server name.
 func SplitID(sigil byte, id string) (local string, domain spec.ServerName, err error) {
 	// IDs have the format: SIGIL LOCALPART ":" DOMAIN
